@@ -127,8 +127,9 @@ S.fn("problog.evaluator:SemiringLogProbability.times", types={"a": "Float", "b":
      requires=["a < float('inf')", "b < float('inf')"],
      ensures=["math.exp(result) == math.exp(a) * math.exp(b)", "result < float('inf')"])
 S.fn("problog.evaluator:SemiringLogProbability.negate", types={"a": "Float"}, returns="Float",
-     requires=["a <= 0.0"],
-     ensures=["implies(a <= -1e-10, math.exp(result) == 1.0 - math.exp(a))",
+     raises={"InvalidValue": "a > 1e-12"},          # log-probabilities above 0 (beyond tolerance) are rejected
+     ensures=["a <= 1e-12",
+              "implies(a <= -1e-10, math.exp(result) == 1.0 - math.exp(a))",
               # tolerance window of the code: exp(a) > 1 - 1e-10, answer is exactly 0
               "implies(a > -1e-10, math.exp(result) == 0.0 and 1.0 - math.exp(a) < 1e-10)",
               "result <= 0.0"])
@@ -136,10 +137,12 @@ S.fn("problog.evaluator:SemiringLogProbability.normalize", types={"a": "Float", 
      requires=["a <= z", "z <= 0.0", "float('-inf') < z"],
      ensures=["math.exp(result) * math.exp(z) == math.exp(a)", "result <= 0.0"])
 S.fn("problog.evaluator:SemiringLogProbability.value", types={"a": "Float"}, returns="Float",
-     requires=["0.0 <= a <= 1.0"],
-     ensures=["implies(a >= 1e-9, math.exp(result) == a)",
+     requires=["isfinite(a)"],
+     raises={"InvalidValue": "a < -1e-9 or a > 1.0 + 1e-9"},
+     ensures=["-1e-9 <= a <= 1.0 + 1e-9",
+              "implies(a >= 1e-9, math.exp(result) == a)",
               "implies(a < 1e-9, math.exp(result) == 0.0)",      # values below 1e-9 are flushed to 0
-              "result <= 0.0"])
+              "implies(a <= 1.0, result <= 0.0)"])
 S.fn("problog.evaluator:SemiringLogProbability.result", types={"a": "Float", "formula": "None"}, returns="Float",
      requires=["a < float('inf')"], ensures=["result == math.exp(a)"])
 
